@@ -362,13 +362,63 @@ def classify_loop(prog, iv, cons, f, R, h, body, kind="reader"):
             return None, ("", why)
         if d and d[0] == "binop" and d[1] in ("Lt", "Ge") and strip(d[2])[0] == "call" and strip(d[2])[1].endswith("::available"):
             pass
+        # (f) counter loop: `while i < n { ..; i += c }` with c >= 1, n not assigned inside the loop
+        r = _counter_loop(prog, iv, f, R, h, body, b, s, kind)
+        if r is not None:
+            return r
     return None, ("", "exit conditions %s" % descs)
+
+
+def _counter_loop(prog, iv, f, R, h, body, b, s, kind):
+    """`let mut i = c0; while i < n { ..; i += 1 }` (mirlib.counter_locals): the exit test is left when `i < n` is false,
+    every trip around the loop passes the overflow-checked increment and nothing else assigns i or n"""
+    for n, (hh, init, bound_op) in counter_locals(f).items():
+        if hh != h:
+            continue
+        bound = R.operand(bound_op)
+        if kind != "writer":
+            v = iv.operand(f, bound_op, h)
+            ok = (v is not None and v[1] <= CAP) or memlen(prog, bound)
+            if not ok:
+                ok, why = _fill_bound_ok(prog, iv, f, strip(bound))
+            if not ok:
+                continue
+        return "counter", ("counter/" + tree_str(strip_deep(bound))[:40], "counter loop: left when `i < %s` is false, every trip adds 1 to i (overflow-checked) and the bound is not assigned in the loop" % tree_str(strip_deep(bound))[:40])
+    return None
+
+
+_SLICING = ("index", "index_mut", "get", "get_mut", "drain", "split_at", "split_at_mut", "get_unchecked", "copy_within")
+
+
+def _iter_nodes(t):
+    """sub-trees of an iterator expression that can themselves be the iterated source: a range used as the *index* of
+    a slicing call (`buf[a..b].iter()`) selects in-memory data and is not iterated"""
+    out = [t]
+    k = t[0]
+    if k == "call":
+        last = t[1].rsplit("::", 1)[-1]
+        args = t[2][:1] if last in _SLICING else t[2]
+        for a in args:
+            out.extend(_iter_nodes(a))
+    elif k == "index":
+        out.extend(_iter_nodes(t[1]))
+    elif k in ("field", "ok", "discr", "partial", "ref"):
+        out.extend(_iter_nodes(t[1]))
+    elif k in ("unop", "cast"):
+        out.extend(_iter_nodes(t[2]))
+    elif k == "agg":
+        for a in t[2]:
+            out.extend(_iter_nodes(a))
+    elif k == "phi":
+        for a in t[1]:
+            out.extend(_iter_nodes(a))
+    return out
 
 
 def _iterator_bounded(prog, iv, f, next_call, block):
     """source of the iterator fed to next(): Range{lo,hi} needs a bounded hi; everything else iterates data in memory"""
     src = next_call[2][0] if next_call[2] else ("unknown",)
-    rng = [x for x in leaves(src) if x[0] == "agg" and x[1][0] == "adt" and x[1][2] in ("Range", "RangeInclusive")]
+    rng = [x for x in _iter_nodes(src) if x[0] == "agg" and x[1][0] == "adt" and x[1][2] in ("Range", "RangeInclusive")]
     if rng:
         hi = rng[0][2][1]
         # evaluate from MIR: find the aggregate statement
